@@ -485,6 +485,6 @@ def subs(tier):
                 max_wall={"quick": 500, "thorough": 3200}),
             Sub("fuzz", st.just({}), run_fuzz, quick=1, thorough=1, needs=("fuzz",), enum=fuzz_enum,
                 max_wall={"quick": 400, "thorough": 3000}),
-            Sub("sanitizer", cases(), run_case, quick=400, thorough=12000, needs=("san", "h5x"), shrink_budget=60),
+            Sub("sanitizer", cases(), run_case, quick=560, thorough=12000, needs=("san", "h5x"), shrink_budget=60),
             Sub("valgrind", cases(tiny=True), run_valgrind, quick=64, thorough=800, needs=("rel", "h5x"), shrink_budget=6,
                 max_wall={"quick": 500, "thorough": 3000})]
